@@ -50,6 +50,41 @@ def spec_program(sp):
     return '\n'.join(lines) + '\nint main(void) {\n' + '\n'.join(body) + '\nreturn 0;\n}\n'
 
 
+def names_program(rng):
+    """Typedef names re-used as member / object names: after a type specifier has been seen, an identifier that is also a typedef name is a declarator."""
+    tds = [('TN_long', 'long'), ('TN_char', 'char'), ('TN_arr', 'short [3]'), ('TN_st', 'struct { int q; char r; }'), ('TN_ptr', 'char *'), ('TN_u', 'unsigned')]
+    lines = ['#include "vrt.h"'] + ['typedef %s;' % (t.replace(' [3]', ' %s[3]' % n) if '[3]' in t else '%s %s' % (t, n)) for n, t in tds]
+    body, owners = [], []
+    specs = ['char', 'short', 'int', 'long', 'unsigned', 'signed char', 'unsigned long', 'long long', 'double', '_Bool', 'const int', 'volatile short', 'struct { char z[5]; }', 'TN_long', 'TN_st', 'TN_arr', 'TN_ptr']
+    k = 0
+    for _ in range(60):
+        nm = rng.sample([n for n, _t in tds], rng.randrange(1, 4))
+        mem = ['char lead;']
+        paths = []
+        for n in nm:
+            sp = rng.choice(specs)
+            form = rng.choice(['%s %s;', '%s %s[2];', '%s *%s;', '%s %s, other_%s;', '%s %s : 5;' if sp in ('int', 'unsigned', 'long', 'short', 'char') else '%s %s;'])
+            mem.append(form % ((sp, n, n) if form.count('%s') == 3 else (sp, n)))
+            paths.append(n)
+        mem.append('char tail;')
+        kind = rng.choice(['struct', 'struct', 'union'])
+        lines.append('%s NM%d { %s };' % (kind, k, ' '.join(mem)))
+        body.append('OUTV(%d, sizeof(%s NM%d)); OUTV(%d, _Alignof(%s NM%d)); OUTV(%d, (long)&((%s NM%d *)0)->tail);' % (k, kind, k, k, kind, k, k, kind, k))
+        owners += [('C08|names|typedef-name-as-member|size', ' '.join(mem)), ('C08|names|typedef-name-as-member|align', ' '.join(mem)), ('C08|names|typedef-name-as-member|offset', ' '.join(mem))]
+        for n in paths:
+            if ': 5' in ' '.join(m for m in mem if ' %s ' % n in m or ' %s;' % n in m or ' %s[' % n in m or '*%s' % n in m or ' %s,' % n in m):
+                continue
+            body.append('OUTV(%d, (long)&((%s NM%d *)0)->%s);' % (k, kind, k, n))
+            owners.append(('C08|names|typedef-name-as-member|offset', '%s in %s' % (n, ' '.join(mem))))
+        # block scope: an object named like the typedef
+        n = rng.choice(nm)
+        sp = rng.choice(['short', 'unsigned char', 'long', 'double', 'struct { char z[7]; }'])
+        body.append('{ %s %s; OUTV(%d, sizeof %s); } { %s inner; OUTV(%d, sizeof inner); }' % (sp, n, k, n, n, k))
+        owners += [('C08|names|typedef-name-as-object|size', '%s %s' % (sp, n)), ('C08|names|typedef-name-as-object|size', 'inner')]
+        k += 1
+    return '\n'.join(lines) + '\nint main(void) {\n' + '\n'.join(body) + '\nreturn 0;\n}\n', owners
+
+
 def type_observations(k, ty, lines, body, owners, tag):
     name = 'T%d' % k
     ty.tag = name
@@ -204,6 +239,11 @@ def run(ctx):
     ctx.count('specifier_spellings', len(sp))
     for text, ms in sp:
         ctx.saw('spec:' + text)
+    for _ in range(ctx.scale(3, 30)):
+        src, nown = names_program(rng)
+        tus.append((src, nown, 'names'))
+        for o in nown:
+            ctx.saw(o[0])
     # (2) aggregates
     ntypes = ctx.scale(6000, 80000)
     per = 35
